@@ -231,6 +231,13 @@ class Real:
                 raise common.EngineError("surrounding run printed no document: %r" % res)
             r.set_script("a", "build", ["exit 0"])
             r.clear_traces()
+        elif k in ("RUNC", "ANA"):
+            # surroundings (no effect in the model): a run of whatever is changed (no -t) / an analysis; neither
+            # is an update of the checkpoint
+            res = r.mr("run", "-c", "build", env=r.trace_env()) if k == "RUNC" else r.mr("analyze", "--all")
+            if res.json() is None:
+                raise common.EngineError("surrounding %s printed no document: %r" % (k, res))
+            r.clear_traces()
         elif k == "LSN":
             # surroundings: from now on a `log tail` listener is attached
             lis = subprocess.Popen([common.MONORAIL, "log", "tail", "--stdout", "--stderr"], cwd=r.dir, env=self.s.env(),
@@ -510,11 +517,15 @@ def inv_c07(model, real, ops, tier):
             [("W", p, c) for p in PATHS + NEWPATHS if p not in model.wt for c in ["1", "2", FRESH]] + \
             [("D", p) for p in PATHS if p in model.wt and p in model.commits[-1]] + \
             [("W", p, FRESH) for p in IGNORED] + \
-            [("W", p, "@empty") for p in PATHS + NEWPATHS]   # an empty file: created (`touch`, `: > f`) or truncated; no file of the alphabet is ever empty
+            [("W", p, "@empty") for p in (PATHS + NEWPATHS if tier != "quick" else [q for q in PATHS + NEWPATHS[:1] if q not in model.wt] + [q for q in PATHS if q in model.wt][:1])] + \
+            [("W", p, "@symlink") for p in [q for q in PATHS if q in model.wt][: (1 if tier == "quick" else 9)]]   # the file replaced by a symbolic link to another file (reading the path now yields content it never had)
     seqs = [[e] for e in edits]
     # file times must not matter: the same content change arriving with a modification time far in
     # the past (mv of an older file, cp -p, tar x)
-    seqs += [[("W", e[1], e[2], "old-mtime")] for e in edits if e[0] == "W"]
+    om = [e for e in edits if e[0] == "W" and e[2] not in ("@symlink", "@empty")]
+    if tier == "quick":
+        om = om[::3]
+    seqs += [[("W", e[1], e[2], "old-mtime")] for e in om]
     if tier == "thorough":
         seqs += [[e1, e2] for e1 in edits for e2 in edits if e1[1] < e2[1]]
     trial = [0]
@@ -532,7 +543,10 @@ def inv_c07(model, real, ops, tier):
             saved[e[1]] = open(fp, "rb").read() if os.path.isfile(fp) else None
         for e in seq:
             fp = r.path(e[1])
-            if e[0] == "W":
+            if e[0] == "W" and e[2] == "@symlink":
+                os.unlink(fp)
+                os.symlink("keep.txt", fp)   # a/keep.txt and b/keep.txt are committed files with other content
+            elif e[0] == "W":
                 r.write(e[1], "" if e[2] == "@empty" else sc.content(e[2]))
                 if len(e) > 3:
                     os.utime(fp, (1_000_000_000, 1_000_000_000))
@@ -558,6 +572,8 @@ def inv_c07(model, real, ops, tier):
                 if os.path.isfile(fp):
                     os.unlink(fp)
             else:
+                if os.path.islink(fp):
+                    os.unlink(fp)   # never write through the link
                 r.write(p, data)
         if len(seq) == 1:
             r.mr("checkpoint", "update", "-p")
@@ -947,6 +963,15 @@ def ignored_paths_task(variant):
         # the change set does not depend on the configured targets at all: a configuration with an empty
         # target list, or without the key, reports the same paths
         variant, _, tv = variant.partition("/")
+        gx = tv == "global-excludes"
+        if gx:
+            # the user's own git configuration names an excludes file (core.excludesFile): what it excludes is
+            # excluded by gitignore like anything else and is not an untracked change
+            tv = ""
+            with open(os.path.join(s.dir, ".gitconfig"), "w") as f:
+                f.write("[core]\n\texcludesFile = %s\n" % os.path.join(s.dir, "global-ignore"))
+            with open(os.path.join(s.dir, "global-ignore"), "w") as f:
+                f.write("*.scratch\neditor-backups/\n")
         if tv:
             ts = []
         files = {"a/vendor/dep.txt": "dep 1\n", "a/vendor/old.txt": "old\n", "a/NOTES.md": "notes 1\n", "a/vendor/shared/s.txt": "s 1\n"}
@@ -965,6 +990,10 @@ def ignored_paths_task(variant):
         r.write("a/vendor/new.txt", "new\n")
         r.write("a/NOTES.md", "notes 2\n")
         r.write("a/vendor/shared/s.txt", "s 2\n")
+        if gx:
+            r.write("a/vendor/notes.scratch", "scratch\n")
+            r.write("c/editor-backups/f.txt~", "backup\n")
+            r.write("top.scratch", "scratch\n")
         want = sorted(["a/NOTES.md", "a/vendor/dep.txt", "a/vendor/new.txt", "a/vendor/old.txt", "a/vendor/shared/s.txt"], key=lambda x: x.encode())
         if variant == "committed":
             r.commit("edits")
@@ -974,6 +1003,8 @@ def ignored_paths_task(variant):
             modes = [(["--changes"], want), (["--all"], want), (["--changes", "--change-targets"], want), (["--changes", "--target-groups"], want)]
         if tv:
             variant = variant + "/" + tv
+        if gx:
+            variant = variant + "/global-excludes"
         for args, w in modes:
             doc = r.mr("analyze", *args).json()
             evals += 1
@@ -1069,6 +1100,162 @@ def outdir_sibling_task(variant):
         return {"engine_error": "%s (out_dir sibling, %s)" % (e, variant)}
     except Exception:
         return {"engine_error": "out_dir sibling %s: %s" % (variant, traceback.format_exc()[-1200:])}
+    finally:
+        s.cleanup()
+
+
+def outdir_prefix_changes_task(variant):
+    """C02 for paths whose names merely BEGIN with the name of the output directory (`monorail-out.md`,
+    `monorail-outline/plan.txt` next to the default `monorail-out`; `output.txt`, `outer/lib.txt` next to a
+    configured `out`; `.mrc` next to `.mr`): they are paths like any other and are listed when they change."""
+    s = sc.Scratch("oprefix")
+    try:
+        od, sibs = {"default": (None, ["monorail-out.md", "monorail-outline/plan.txt", "monorail-outline/old.txt"]),
+                    "custom": ("out", ["output.txt", "outer/lib.txt", "outer/old.txt"]),
+                    "dot": (".mr", [".mrc", ".mr-notes/x.txt", ".mr-notes/old.txt"])}[variant.split("/")[0]]
+        ts = [{"path": "app"}]
+        files = {p_: "one\n" for p_ in sibs}
+        files[".gitignore"] = "/%s/\n" % (od or "monorail-out")
+        r = sc.Repo(s, "r", ts, commands={"app": {"build": "x"}}, cfg_extra={"out_dir": od} if od else None, files=files)
+        v = []
+        evals = 0
+        first = r.head()
+        if r.mr("checkpoint", "update").code != 0:
+            raise common.EngineError("checkpoint update failed")
+        r.write(sibs[0], "two\n")
+        r.write(sibs[1].rsplit("/", 1)[0] + "/new.txt" if "/" in sibs[1] else sibs[1] + ".new", "untracked\n")
+        os.unlink(r.path(sibs[2]))
+        r.write("app/new.txt", "untracked\n")
+        newp = sibs[1].rsplit("/", 1)[0] + "/new.txt"
+        want = sorted([sibs[0], newp, sibs[2], "app/new.txt"], key=lambda x: x.encode())
+        if variant.endswith("committed"):
+            r.commit("edits")
+            modes = [(["--changes", "-b", first, "-e", r.head()], want), (["--changes"], want)]
+        else:
+            modes = [(["--changes"], want), (["--all"], want)]
+        for args, w in modes:
+            doc = r.mr("analyze", *args).json()
+            evals += 1
+            got = None if doc is None else [c["path"] for c in doc.get("changes") or []]
+            if got != w:
+                v.append(("change-set-wrong", "[%s] out_dir %s: analyze %s lists %s, expected %s" % (variant, od or "monorail-out (default)", " ".join(a for a in args if len(a) < 20), got, w)))
+        return {"violations": [{"sig": sig, "detail": d, "rank": 64, "case": {"oprefix_case": variant}} for sig, d in v],
+                "evals": evals, "obs": None, "nontrivial": 1}
+    except common.EngineError as e:
+        return {"engine_error": "%s (out_dir prefix paths, %s)" % (e, variant)}
+    except Exception:
+        return {"engine_error": "out_dir prefix paths %s: %s" % (variant, traceback.format_exc()[-1200:])}
+    finally:
+        s.cleanup()
+
+
+def root_file_task(variant):
+    """`uses` entries that are files directly in the repository root (VERSION, a lock file, a toolchain file): after
+    `update -p` an edit, the deletion and the creation of such a file each re-flag exactly the targets that use it."""
+    s = sc.Scratch("rootf")
+    try:
+        ts = [{"path": "a", "uses": ["TOOLCHAIN"]}, {"path": "b", "uses": ["VERSION"]}, {"path": "c", "uses": ["shared/lib.txt"]}]
+        r = sc.Repo(s, "r", ts, commands={t["path"]: {"build": "x"} for t in ts}, files={"VERSION": "1.0\n", "shared/lib.txt": "lib 1\n", "README.md": "readme\n"})
+        v = []
+        evals = 0
+
+        def targets():
+            d = r.mr("analyze").json()
+            return None if d is None else d.get("targets")
+
+        def ran():
+            r.clear_traces()
+            res = r.mr("run", "-c", "build", env=r.trace_env())
+            return sorted({r.target_pair(x)[0] for x in r.traces()}) if res.json() is not None else None
+        if variant == "dirty-at-update":
+            r.write("VERSION", "1.1\n")
+        steps = [("edit VERSION", lambda: r.write("VERSION", "2.0\n"), ["b"]),
+                 ("delete VERSION", lambda: os.unlink(r.path("VERSION")), ["b"]),
+                 ("create TOOLCHAIN", lambda: r.write("TOOLCHAIN", "stable\n"), ["a"]),
+                 ("edit README.md (used by nobody)", lambda: r.write("README.md", "readme 2\n"), []),
+                 ("edit shared/lib.txt", lambda: r.write("shared/lib.txt", "lib 2\n"), ["c"])]
+        for label, act, want in steps:
+            if r.mr("checkpoint", "update", "-p").code != 0:
+                raise common.EngineError("update -p failed")
+            t0 = targets()
+            evals += 1
+            if t0 != []:
+                v.append(("targets-after-pending-update", "[%s] before '%s': analyze right after update -p reports %s" % (variant, label, t0)))
+            act()
+            got, started = targets(), ran()
+            evals += 2
+            if got != want:
+                v.append(("edit-not-reflagged" if got is not None and set(got) < set(want) else "edit-flags-wrong-targets", "[%s] after update -p then %s: analyze reports %s, expected %s" % (variant, label, got, want)))
+            if started != want:
+                v.append(("edit-not-reflagged" if started is not None and set(started) < set(want) else "edit-flags-wrong-targets", "[%s] after update -p then %s: run started %s, expected %s" % (variant, label, started, want)))
+        return {"violations": [{"sig": sig, "detail": d, "rank": 63, "case": {"rootf_case": variant}} for sig, d in v[:6]],
+                "evals": evals, "obs": None, "nontrivial": 1}
+    except common.EngineError as e:
+        return {"engine_error": "%s (root-level uses, %s)" % (e, variant)}
+    except Exception:
+        return {"engine_error": "root-level uses %s: %s" % (variant, traceback.format_exc()[-1200:])}
+    finally:
+        s.cleanup()
+
+
+def show_during_run_task(variant):
+    """`checkpoint show` only reads: while a `run` of the same repository is in progress (and holds the lock) it
+    returns exactly what the last update returned - asked from another shell, or by an executable of the run itself."""
+    import ctl as ctlmod
+    s = sc.Scratch("showrun")
+    try:
+        ts = [{"path": "a"}, {"path": "b"}]
+        r = sc.Repo(s, "r", ts, commands={t["path"]: {"build": "x"} for t in ts})
+        r.write("a/dirty.txt", "dirty\n")
+        up = r.mr("checkpoint", "update", "-p")
+        want = (up.json() or {}).get("checkpoint")
+        if up.code != 0 or want is None:
+            raise common.EngineError("update -p failed")
+        v = []
+        evals = 0
+        c = ctlmod.Controller(s)
+        try:
+            env = s.env(c.env())
+            holder = c.spawn("run", [common.MONORAIL, "run", "-c", "build", "-t", "a", "b", "--deps"], r.dir, env)
+            c.wait(lambda: len(c.waiting()) >= 2 or holder.done(), 15)
+            mine = list(c.waiting())
+            if len(mine) < 2:
+                raise common.EngineError("the run did not start its executables (exit %s %s)" % (holder.code, holder.err[:200]))
+            if variant == "other-shell":
+                for i in range(2):
+                    sh = r.mr("checkpoint", "show")
+                    evals += 1
+                    if sh.code != 0 or (sh.json() or {}).get("checkpoint") != want:
+                        v.append(("show-differs-from-last-update", "checkpoint show while a run of the same repository is in progress: exit %s %s, the last update returned %s" % (sh.code, (sh.err or sh.out)[:200], want)))
+                        break
+            else:
+                # an executable of the run asks (with the environment monorail gave it)
+                outf = os.path.join(s.dir, "show.json")
+                argv = [common.MONORAIL, "-f", os.path.join(r.dir, "Monorail.json"), "checkpoint", "show"]
+                c.send(mine[0], ["spawn %s %s" % (outf, "\0".join(argv).encode().hex())])
+                if not c.wait_acks(mine[0], 30) or not os.path.exists(outf):
+                    raise common.EngineError("nested invocation did not return")
+                res = json.load(open(outf))
+                sh = sc.Result(res["code"], bytes.fromhex(res["out"]), bytes.fromhex(res["err"]))
+                evals += 1
+                if sh.code != 0 or (sh.json() or {}).get("checkpoint") != want:
+                    v.append(("show-differs-from-last-update", "checkpoint show asked by an executable of a run in progress: exit %s %s, the last update returned %s" % (sh.code, (sh.err or sh.out)[:200], want)))
+            for ch in mine:
+                c.release(ch, 0)
+            c.wait(lambda: holder.done(), 20)
+            if not holder.done():
+                c.kill(holder, group=True)
+                c.wait(lambda: holder.done(), 5)
+            elif holder.code != 0 and not v:
+                v.append(("run-failed", "the run ended with exit %s %s" % (holder.code, holder.err[:200])))
+        finally:
+            c.close()
+        return {"violations": [{"sig": sig, "detail": d, "rank": 62, "case": {"showrun_case": variant}} for sig, d in v],
+                "evals": evals, "obs": None, "nontrivial": 1}
+    except common.EngineError as e:
+        return {"engine_error": "%s (show during run, %s)" % (e, variant)}
+    except Exception:
+        return {"engine_error": "show during run %s: %s" % (variant, traceback.format_exc()[-1200:])}
     finally:
         s.cleanup()
 
@@ -1183,10 +1370,10 @@ def state_task(task):
 
 
 RULES = {
-    "C02": "plus changed paths covered by a target's ignores entries (modified, deleted, untracked, named exactly), in every output mode, uncommitted and as a commit range; plus wholly untracked directories (5 places: inside a target, nested three deep, name with a space / non-ASCII, outside every target) whose files must be listed one by one; plus 9 sequences with surroundings outside the model (records of earlier successful / failed runs on disk, a log tail listener attached); plus an odd-file-name family (18 names: leading/trailing spaces, tab, newline, quote, backslash, non-ASCII, 200 characters, leading dash, glob characters), each untracked and tracked-modified; plus a many-pending-paths family (1..40 and 1000 paths in quick, up to 2500 in thorough, of mixed sizes, untracked / staged / modified / deleted at once); plus the size family of C07 judged on the reported change list (a pending file edited beyond a buffer/read boundary must be listed, restored content must be filtered); explicit-state BFS over operation sequences {write(p,c), delete(p), mv, git mv, add -A, commit, checkpoint update [-p] [--id k], checkpoint delete, out delete --all} on paths {a/f.txt, 'b/n e-acute.txt', b/m.txt}; state = (commits, index, worktree, checkpoint) with commit ids canonicalised to indices; each new state is materialised in a real repository (real git, real monorail) and, when a checkpoint exists, `analyze --changes` for the default range, every ordered pair of commits as --begin/--end, and every commit as --begin alone (.. working tree) and as --end alone (checkpoint ..) must equal the statement's set, also after every file was rewritten with the bytes it already had and a new mtime (content differs from base, plus untracked, minus pending-checksum matches), verbatim and sorted",
-    "C07": "plus targets whose names only begin with the name of the output directory; plus analysis under a file descriptor limit of 64 / 256 with 1000 pending paths; plus wholly untracked directories (5 places) pending at update -p: a new file, a changed file and a new file in a subdirectory must each re-flag; plus 9 sequences with surroundings outside the model (records of earlier successful / failed runs on disk, a log tail listener attached); plus an odd-file-name family (18 names: leading/trailing spaces, tab, newline, quote, backslash, non-ASCII, 200 characters, leading dash, glob characters), each untracked and tracked-modified; plus a many-pending-paths family (1..40 and 1000 paths in quick, up to 2500 in thorough, of mixed sizes, untracked / staged / modified / deleted at once); plus the update-pair family of C19 judged on `analyze` after the second update -p; plus a size family: a pending file (untracked / modified / staged) of each size around the checksum buffer and read boundaries (65535..65537, 200000, 2 MiB+1; thorough more) must be clean after update -p and re-flagged by a one-byte edit at each boundary offset, an append and a truncation; same BFS; in every state reached by `checkpoint update -p`: analyze reports no targets and run starts nothing; then from that state every single later edit (fresh content for each path, new files, deletion of committed files; thorough: every pair) must re-flag exactly the targets of the edited paths, and a second update -p must clear them",
-    "C19": "plus HEAD resolving to no commit (repository without commits; orphan branch after a real checkpoint): update must fail and leave the store as it was; plus 9 sequences with surroundings outside the model (records of earlier successful / failed runs on disk, a log tail listener attached); plus a many-pending-paths family (1..40 and 1000 paths in quick, up to 2500 in thorough, of mixed sizes, untracked / staged / modified / deleted at once); plus an update-pair family: worktree set to pending configuration S1 (each of a/f.txt, b/m.txt, a/g.txt absent or with one of two contents), `update -p`, worktree set to S2, second update (-p or plain) for every pair (S1,S2) (quick: at most two pending paths each): show must equal what the second update printed; same BFS; from every state (quick: every state whose last operation touched the store) a suffix probe update, update -p, delete: show follows each update and afterwards no checkpoint exists; in every state `checkpoint show` must equal what the last successful update printed (or fail when deleted / never set); updates must record HEAD or the given --id; without a checkpoint analyze reports checkpointed=false with every target and run covers every target",
-    "C05": "plus 9 sequences with surroundings outside the model (records of earlier successful / failed runs on disk, a log tail listener attached); same BFS (part B of C05): in every state `analyze --target-groups` then `run -c build` in trace mode must agree on groups and started targets",
+    "C02": "plus changed paths covered by a target's ignores entries (modified, deleted, untracked, named exactly), in every output mode, uncommitted and as a commit range; plus wholly untracked directories (5 places: inside a target, nested three deep, name with a space / non-ASCII, outside every target) whose files must be listed one by one; plus 13 sequences with surroundings outside the model (records of earlier successful / failed runs on disk, a log tail listener attached, runs without -t and analyses after a pending path changed again); plus an odd-file-name family (18 names: leading/trailing spaces, tab, newline, quote, backslash, non-ASCII, 200 characters, leading dash, glob characters), each untracked and tracked-modified; plus a many-pending-paths family (1..40 and 1000 paths in quick, up to 2500 in thorough, of mixed sizes, untracked / staged / modified / deleted at once); plus the size family of C07 judged on the reported change list (a pending file edited beyond a buffer/read boundary must be listed, restored content must be filtered); explicit-state BFS over operation sequences {write(p,c), delete(p), mv, git mv, add -A, commit, checkpoint update [-p] [--id k], checkpoint delete, out delete --all} on paths {a/f.txt, 'b/n e-acute.txt', b/m.txt}; state = (commits, index, worktree, checkpoint) with commit ids canonicalised to indices; each new state is materialised in a real repository (real git, real monorail) and, when a checkpoint exists, `analyze --changes` for the default range, every ordered pair of commits as --begin/--end, and every commit as --begin alone (.. working tree) and as --end alone (checkpoint ..) must equal the statement's set, also after every file was rewritten with the bytes it already had and a new mtime (content differs from base, plus untracked, minus pending-checksum matches), verbatim and sorted",
+    "C07": "plus `uses` entries that are files in the repository root (edited, deleted, created after update -p); plus targets whose names only begin with the name of the output directory; plus analysis under a file descriptor limit of 64 / 256 with 1000 pending paths; plus wholly untracked directories (5 places) pending at update -p: a new file, a changed file and a new file in a subdirectory must each re-flag; plus 13 sequences with surroundings outside the model (records of earlier successful / failed runs on disk, a log tail listener attached, runs without -t and analyses after a pending path changed again); plus an odd-file-name family (18 names: leading/trailing spaces, tab, newline, quote, backslash, non-ASCII, 200 characters, leading dash, glob characters), each untracked and tracked-modified; plus a many-pending-paths family (1..40 and 1000 paths in quick, up to 2500 in thorough, of mixed sizes, untracked / staged / modified / deleted at once); plus the update-pair family of C19 judged on `analyze` after the second update -p; plus a size family: a pending file (untracked / modified / staged) of each size around the checksum buffer and read boundaries (65535..65537, 200000, 2 MiB+1; thorough more) must be clean after update -p and re-flagged by a one-byte edit at each boundary offset, an append and a truncation; same BFS; in every state reached by `checkpoint update -p`: analyze reports no targets and run starts nothing; then from that state every single later edit (fresh content for each path, new files, deletion of committed files; thorough: every pair) must re-flag exactly the targets of the edited paths, and a second update -p must clear them",
+    "C19": "plus `checkpoint show` while a run of the same repository is in progress (from another shell, from an executable of the run); plus HEAD resolving to no commit (repository without commits; orphan branch after a real checkpoint): update must fail and leave the store as it was; plus 13 sequences with surroundings outside the model (records of earlier successful / failed runs on disk, a log tail listener attached, runs without -t and analyses after a pending path changed again); plus a many-pending-paths family (1..40 and 1000 paths in quick, up to 2500 in thorough, of mixed sizes, untracked / staged / modified / deleted at once); plus an update-pair family: worktree set to pending configuration S1 (each of a/f.txt, b/m.txt, a/g.txt absent or with one of two contents), `update -p`, worktree set to S2, second update (-p or plain) for every pair (S1,S2) (quick: at most two pending paths each): show must equal what the second update printed; same BFS; from every state (quick: every state whose last operation touched the store) a suffix probe update, update -p, delete: show follows each update and afterwards no checkpoint exists; in every state `checkpoint show` must equal what the last successful update printed (or fail when deleted / never set); updates must record HEAD or the given --id; without a checkpoint analyze reports checkpointed=false with every target and run covers every target",
+    "C05": "plus 13 sequences with surroundings outside the model (records of earlier successful / failed runs on disk, a log tail listener attached, runs without -t and analyses after a pending path changed again); same BFS (part B of C05): in every state `analyze --target-groups` then `run -c build` in trace mode must agree on groups and started targets",
 }
 
 
@@ -1269,12 +1456,18 @@ def bfs(prop, tier, depth, wall_cap=None):
             agg["violations"].extend(r["violations"])
         agg["directory_becomes_file_cases"] = 2
     if prop == "C02":
-        for r in common.pmap(ignored_paths_task, ["worktree", "committed", "worktree/no-targets", "committed/no-targets", "worktree/targets-omitted", "committed/targets-omitted"]):
+        for r in common.pmap(ignored_paths_task, ["worktree", "committed", "worktree/no-targets", "committed/no-targets", "worktree/targets-omitted", "committed/targets-omitted", "worktree/global-excludes", "committed/global-excludes"]):
             if "engine_error" in r:
                 raise common.EngineError(r["engine_error"])
             agg["evaluations"] += r["evals"]
             agg["violations"].extend(r["violations"])
-        agg["ignored_path_cases"] = 2
+        agg["ignored_path_cases"] = 6
+        for r in common.pmap(outdir_prefix_changes_task, [a + b for a in ("default", "custom", "dot") for b in ("", "/committed")]):
+            if "engine_error" in r:
+                raise common.EngineError(r["engine_error"])
+            agg["evaluations"] += r["evals"]
+            agg["violations"].extend(r["violations"])
+        agg["out_dir_prefix_path_cases"] = 6
     if prop == "C07":
         for r in common.pmap(outdir_sibling_task, ["default", "custom"]):
             if "engine_error" in r:
@@ -1282,7 +1475,19 @@ def bfs(prop, tier, depth, wall_cap=None):
             agg["evaluations"] += r["evals"]
             agg["violations"].extend(r["violations"])
         agg["out_dir_sibling_cases"] = 2
+        for r in common.pmap(root_file_task, ["clean-at-update", "dirty-at-update"]):
+            if "engine_error" in r:
+                raise common.EngineError(r["engine_error"])
+            agg["evaluations"] += r["evals"]
+            agg["violations"].extend(r["violations"])
+        agg["root_level_uses_cases"] = 2
     if prop == "C19":
+        for r in common.pmap(show_during_run_task, ["other-shell", "child-of-run"]):
+            if "engine_error" in r:
+                raise common.EngineError(r["engine_error"])
+            agg["evaluations"] += r["evals"]
+            agg["violations"].extend(r["violations"])
+        agg["show_during_run_cases"] = 2
         for r in common.pmap(unborn_task, ["no-commits", "orphan-branch"]):
             if "engine_error" in r:
                 raise common.EngineError(r["engine_error"])
@@ -1325,7 +1530,12 @@ def bfs(prop, tier, depth, wall_cap=None):
         sur = [[["RUN"]], [["RUN"], ["CPU"]], [["CPUP"], ["RUNF"], ["W", "a/f.txt", "2"]], [["RUN"], ["CPU"], ["RUNF"], ["CPD"]],
                [["LSN"], ["W", "b/m.txt", "1"], ["CPUP"], ["RUN"]], [["CPU"], ["RUNF"], ["OUTD"], ["CPUP"]],
                [["RUNF"], ["W", "a/f.txt", "2"], ["CPUP"]], [["W", "b/m.txt", "2"], ["RUN"], ["CPUP"], ["RUNF"]],
-               [["LSN"], ["RUNF"], ["CPU"], ["W", "a/f.txt", "1"]]]
+               [["LSN"], ["RUNF"], ["CPU"], ["W", "a/f.txt", "1"]],
+               # a pending path changes again and whatever is changed is run (no -t) or analysed: neither touches the checkpoint
+               [["W", "b/m.txt", "1"], ["CPUP"], ["W", "b/m.txt", "2"], ["RUNC"]],
+               [["W", "a/f.txt", "2"], ["CPUP"], ["D", "a/f.txt"], ["RUNC"], ["ANA"]],
+               [["W", "b/m.txt", "1"], ["CPUP"], ["W", "b/m.txt", "2"], ["RUNC"], ["W", "b/m.txt", "1"]],
+               [["W", "b/m.txt", "1"], ["W", "a/f.txt", "2"], ["CPUP"], ["W", "a/f.txt", "1"], ["ANA"], ["RUNC"], ["RUNC"]]]
         for r in common.pmap(state_task, [(prop, tier, ops) for ops in sur]):
             if "engine_error" in r:
                 raise common.EngineError(r["engine_error"])
@@ -1399,6 +1609,15 @@ def run(prop, tier):
 
 def replay(prop, path):
     body = json.load(open(path))
+    if "oprefix_case" in body["case"] or "rootf_case" in body["case"] or "showrun_case" in body["case"]:
+        r1 = outdir_prefix_changes_task(body["case"]["oprefix_case"]) if "oprefix_case" in body["case"] else root_file_task(body["case"]["rootf_case"]) if "rootf_case" in body["case"] else show_during_run_task(body["case"]["showrun_case"])
+        if r1.get("violations"):
+            for v_ in r1["violations"]:
+                print("REPLAY property=%s still violates: [%s] %s" % (prop, v_["sig"], v_["detail"][:300]))
+            print("VIOLATION property=%s replay=%s" % (prop, path))
+            return 1
+        print("REPLAY property=%s: case passes on the current tree" % prop)
+        return 0
     if "unborn_case" in body["case"] or "ign_case" in body["case"] or "osib_case" in body["case"] or "d2f_case" in body["case"]:
         cs = body["case"]
         r1 = unborn_task(cs["unborn_case"]) if "unborn_case" in cs else ignored_paths_task(cs["ign_case"]) if "ign_case" in cs else outdir_sibling_task(cs["osib_case"]) if "osib_case" in cs else dir_becomes_file_task(cs["d2f_case"])
